@@ -22,6 +22,7 @@ package resolver
 
 import (
 	"fmt"
+	"math"
 
 	"github.com/gontainer/gontainer-helpers/v3/exporter"
 	"github.com/gontainer/gontainer/internal/pkg/consts"
@@ -39,12 +40,36 @@ func (NonStringPrimitiveResolver) ResolveArg(i any) (e ArgExpr, _ error) {
 	// Method NonStringPrimitiveResolver{}.Supports checks whether the underlying type of `i` is primitive.
 	// exporter.MustExport never panics for primitive types, so there is no reason to handle an error.
 	return ArgExpr{
-		Code:              fmt.Sprintf(consts.TplDependencyValue, exporter.MustExport(i)),
+		Code:              fmt.Sprintf(consts.TplDependencyValue, exportPrimitive(i)),
 		Raw:               i,
 		DependsOnParams:   nil,
 		DependsOnServices: nil,
 		DependsOnTags:     nil,
 	}, nil
+}
+
+// exportPrimitive returns GO code for the given primitive value.
+// Non-finite floats (YAML: .inf, -.inf, .nan) cannot be expressed as literals,
+// the code formatter adds the import of the package "math".
+func exportPrimitive(i any) string {
+	var f float64
+	switch v := i.(type) {
+	case float64:
+		f = v
+	case float32:
+		f = float64(v)
+	default:
+		return exporter.MustExport(i)
+	}
+	switch {
+	case math.IsNaN(f):
+		return "math.NaN()"
+	case math.IsInf(f, 1):
+		return "math.Inf(1)"
+	case math.IsInf(f, -1):
+		return "math.Inf(-1)"
+	}
+	return exporter.MustExport(i)
 }
 
 func (NonStringPrimitiveResolver) Supports(i any) bool {
